@@ -32,6 +32,10 @@ func (its *RedisLock) TryLock() bool {
 		return false
 	}
 	if err := timeCtx.Err(); err != nil {
+		// the lock was taken, but too late for this request: it is given back, or it would stay taken until it expires.
+		if _, uErr := its.mutex.Unlock(); uErr != nil {
+			its.ctx.L().Warnf("[🔒] fail to give back '%v': %v", its.lockName, uErr.Error())
+		}
 		its.ctx.L().Warnf("[🔒] fail to lock '%v':%v", its.lockName, err.Error())
 		return false
 	}
